@@ -776,7 +776,7 @@ func runScenario(sc *Scenario) *Outcome {
 	realmInConfig := rc != nil && !viaTemplate
 
 	// ---- observer (existing realms only; a template realm is observed afterwards)
-	if realmInConfig && !sc.Router.Closing {
+	if realmInConfig && !sc.Router.Closing && !sc.Router.Stopped {
 		r.startObserver(sc.Hello.Realm, rc)
 		r.observerEarly = r.observer != nil
 	}
@@ -788,7 +788,7 @@ func runScenario(sc *Scenario) *Outcome {
 		secretUser = claimed
 	}
 	var captured = map[string]string{} // method -> signature captured earlier
-	if rc != nil && (sc.Resp.Kind == "replay") && !sc.Router.Closing {
+	if rc != nil && (sc.Resp.Kind == "replay") && !sc.Router.Closing && !sc.Router.Stopped {
 		for _, m := range []string{"ticket", "wampcra", "cryptosign"} {
 			a := authCfgFor(rc, m)
 			if a == nil {
@@ -831,6 +831,11 @@ func runScenario(sc *Scenario) *Outcome {
 		r.blocker = a.k
 		r.closeDone = make(chan struct{})
 		go func() { rtr.Close(); close(r.closeDone) }()
+		synctest.Wait()
+	}
+
+	if sc.Router.Stopped {
+		rtr.Close()
 		synctest.Wait()
 	}
 
@@ -1033,12 +1038,12 @@ func runScenario(sc *Scenario) *Outcome {
 
 	// ---- was a realm created from the template?
 	created := false
-	createdObserved := !sc.Router.Closing
-	if sc.Hello.First == "hello" && sc.Hello.Realm != "" && !realmInConfig && !sc.Router.Closing && !uriOK(false, sc.Hello.Realm) {
+	createdObserved := !sc.Router.Closing && !sc.Router.Stopped
+	if sc.Hello.First == "hello" && sc.Hello.Realm != "" && !realmInConfig && createdObserved && !uriOK(false, sc.Hello.Realm) {
 		// AddRealm cannot be used as a probe for a URI no realm can have (and
 		// a refused AddRealm leaks the broker and dealer it started)
 		createdObserved = false
-	} else if sc.Hello.First == "hello" && sc.Hello.Realm != "" && !realmInConfig && !sc.Router.Closing {
+	} else if sc.Hello.First == "hello" && sc.Hello.Realm != "" && !realmInConfig && createdObserved {
 		if err := rtr.AddRealm(&router.RealmConfig{URI: wamp.URI(sc.Hello.Realm), AnonymousAuth: true}); err != nil {
 			if strings.Contains(err.Error(), "already exists") {
 				created = true
@@ -1235,6 +1240,9 @@ func classify(sc *Scenario, ch *wamp.Challenge, w *wamp.Welcome, ab *wamp.Abort,
 	}
 	if sc.Router.Closing {
 		parts = append(parts, "router-closing")
+	}
+	if sc.Router.Stopped {
+		parts = append(parts, "router-stopped")
 	}
 	return strings.Join(parts, " ")
 }
